@@ -35,6 +35,8 @@ type SW struct {
 	Ch    *simhdr.Chain
 	M     *StoreModel
 	opens int
+	// crashWithin: for C06, which operation the examined crash point interrupts
+	crashWithin string
 }
 
 func newSW(s *core.Sim, park bool) *SW {
@@ -206,7 +208,15 @@ func (m *StoreModel) Delete(from, to uint64) {
 	}
 	switch {
 	case from == m.Tail && to == m.Head+1:
-		m.Tail, m.Head = 0, 0
+		if m.Has[to] {
+			// a stored header right above the deleted chain (left behind by a
+			// head-side deletion that failed part-way) becomes the new chain:
+			// the store documents that it does not wipe in this case
+			m.Tail, m.Head = to, to
+			m.walk()
+		} else {
+			m.Tail, m.Head = 0, 0
+		}
 	case from == m.Tail:
 		m.Tail = to
 	default:
@@ -253,6 +263,43 @@ func short(ctx context.Context) (context.Context, context.CancelFunc) {
 // violation class prefix (property specific).
 func (w *SW) checkStore(m *StoreModel, why string) {
 	w.do("check "+why, func() { w.checkStoreIn(m, why) })
+}
+
+// peekStore checks, WITHOUT calling Sync, that at quiescence every appended
+// header is readable wherever it currently sits (write batch, cache or disk)
+// and that Head/Tail already describe the contiguous run.
+func (w *SW) peekStore(m *StoreModel, why string) {
+	w.do("peek "+why, func() {
+		s, st, ch := w.S, w.St, w.Ch
+		ctx := context.Background()
+		for _, h := range m.Heights() {
+			want := ch.At(h)
+			wh := w.where(h)
+			if wh == "not-on-disk" {
+				s.Probe("read-from-write-batch")
+			}
+			got, err := st.GetByHeight(ctx, h)
+			if err != nil || !simhdr.Equal(got, want) {
+				s.Violate("stored-unreadable", map[string]string{"by": "height", "synced": "no"}, "[%s; %s; model %s] GetByHeight(%d)=%v,%v before Sync (raw: %s)", why, w.cfg(), m, h, got, err, wh)
+				return
+			}
+			if g2, err := st.Get(ctx, want.Hash()); err != nil || !simhdr.Equal(g2, want) {
+				s.Violate("stored-unreadable", map[string]string{"by": "hash", "synced": "no"}, "[%s; %s; model %s] Get(hash of %d)=%v,%v before Sync (raw: %s)", why, w.cfg(), m, h, g2, err, wh)
+				return
+			}
+			if ok, err := st.Has(ctx, want.Hash()); !ok || err != nil {
+				s.Violate("stored-unreadable", map[string]string{"by": "has", "synced": "no"}, "[%s; %s; model %s] Has(hash of %d)=%v,%v before Sync (raw: %s)", why, w.cfg(), m, h, ok, err, wh)
+				return
+			}
+		}
+		if !m.Empty() {
+			head, herr := st.Head(ctx)
+			tail, terr := st.Tail(ctx)
+			if herr != nil || terr != nil || head.Height() != m.Head || tail.Height() != m.Tail {
+				s.Violate("ends-mismatch", map[string]string{"kind": "quiescent-unsynced"}, "[%s; %s; model %s] at quiescence before Sync Head=%v(%v) Tail=%v(%v)", why, w.cfg(), m, head, herr, tail, terr)
+			}
+		}
+	})
 }
 
 func (w *SW) checkStoreIn(m *StoreModel, why string) {
@@ -340,6 +387,9 @@ func (w *SW) checkStoreIn(m *StoreModel, why string) {
 			}
 			if ok, _ := st.Has(ctx, want.Hash()); ok {
 				bad("absent-readable", map[string]string{"by": "has"}, "Has(hash of %d)=true but it is not stored (raw: %s)", h, w.where(h))
+			}
+			if wh := w.where(h); wh != "not-on-disk" {
+				bad("absent-on-disk", map[string]string{"raw": wh}, "height %d is not stored but the raw datastore still has %s", h, wh)
 			}
 		}
 	}
